@@ -205,7 +205,7 @@ def check(prop, tier, args):
     mods = [m.__name__ for m in front.number_modules() if hasattr(m, 'format')]
     if args.modules:
         mods = [m for m in mods if m in args.modules]
-    units = accept.accepting_units(modules=mods if args.modules else None)
+    units = accept.accepting_units(modules=mods)
     items = []
     for m in mods:
         ls = sorted({n for o, n in units.get(m, []) if n != 'long'}, key=lambda x: x)
@@ -215,7 +215,7 @@ def check(prop, tier, args):
             rep.add('C04/%s' % m, 'undecided', detail='module was not swept (C01 crash / time-out)')
             continue
         items.append((m, ls, tier))
-    res = accept.run_modules(_task, items, 400 if tier == 'quick' else 2000)
+    res = accept.run_modules(_task, items, 300 if tier == 'quick' else 2000)
     for m in sorted(res):
         r = res[m]
         rep.functions.update([m + ':format', m + ':validate', m + ':compact'])
